@@ -39,8 +39,10 @@ say "== go build ./... and go vet-free tests of touched packages: $pkgs"
 go build ./... >> $LOG 2>&1; build_rc=$?
 go test -vet=off -count=1 $pkgs >> $LOG 2>&1; test_rc=$?
 say "build rc=$build_rc, touched-package tests rc=$test_rc"
+if [ -z "${SKIP_FULL:-}" ]; then
 say "== full suite with the patch"
 go test -vet=off -count=1 $(go list ./... | grep -v '/out/') 2>&1 | grep -v "no test files" | grep -v "^ok" >> $LOG; say "(lines above, if any, are non-ok packages)"
+else say "== full suite with the patch: skipped here (SKIP_FULL; run by the seeding agent, see meta.json)"; fi
 say "== demo with the patch (must fail)"
 run_demo >> $LOG 2>&1; mut_rc=$?
 say "rc=$mut_rc"
